@@ -414,6 +414,30 @@ theorem determined_of_bin (sp : SysParams) (L : Array (List Nat)) (Hd : Array (A
   · exact List.mem_append_left _ (List.mem_append_left _ h1)
   · exact List.mem_append_right _ h1
 
+/-- the internal symbol ids of the rows the decoder builds are 32-bit values -/
+theorem isisOf_lt (d : BlockDec) (e : BlockEnc) (t : Nat) (h : Tracks d e t) (he : GoodEnc e t) :
+    ∀ x ∈ isisOf d e.sp, x < 2 ^ 32 := by
+  obtain ⟨hk, hkp, hl, hleq, _⟩ := sysParams_facts _ _ he.params
+  intro isi hisi
+  unfold isisOf at hisi
+  rw [h.hk] at hisi
+  rcases List.mem_append.mp hisi with h1 | h1
+  · rcases List.mem_append.mp h1 with h2 | h2
+    · have := List.mem_range.mp (List.mem_filter.mp h2).1
+      omega
+    · obtain ⟨j, hj, rfl⟩ := List.mem_map.mp h2
+      have := List.mem_range.mp hj
+      omega
+  · obtain ⟨p, hp, rfl⟩ := List.mem_map.mp h1
+    obtain ⟨hge, hrep⟩ := h.repair_ok p hp
+    unfold BlockEnc.repairPacket at hrep
+    dsimp only at hrep
+    split at hrep
+    · cases hrep
+    · next hlt =>
+      unfold U32 at hlt
+      omega
+
 theorem try3b_spec (sv : Solver) (hs : SolverSpec sv) (d : BlockDec) (e : BlockEnc) (t : Nat) (data : List Nat)
     (h : Tracks d e t) (he : GoodEnc e t) (hl : LayoutOk d t data e) (L : Array (List Nat))
     (Hd : Array (Array Nat)) (hr : EncRows e t L Hd) (hn : e.k ≤ d.esis.length) :
@@ -429,11 +453,11 @@ theorem try3b_spec (sv : Solver) (hs : SolverSpec sv) (d : BlockDec) (e : BlockE
   rw [h.ht]
   cases hsv : sv.full e.sp (isisOf d e.sp) (List.replicate (e.sp.s + e.sp.h) (zeroSym t) ++ recvOf d e.sp) with
   | singular =>
-    have := hs.full_singular _ _ _ t _ hsys he.t_pos hwf hcons hsv
+    have := hs.full_singular _ _ _ _ t _ he.params (isisOf_lt d e t h he) hsys he.t_pos hwf hcons hsv
     exact ⟨none, .c3fail, rfl, Or.inr rfl, by simp [this]⟩
-  | oracleError => exact absurd hsv (hs.full_answers _ _ _ t _ hsys he.t_pos hwf hcons)
+  | oracleError => exact absurd hsv (hs.full_answers _ _ _ _ t _ he.params (isisOf_lt d e t h he) hsys he.t_pos hwf hcons)
   | solved c =>
-    obtain ⟨hc, hcapp, hdet⟩ := hs.full_solved _ _ _ t _ c hsys he.t_pos hwf hcons hsv
+    obtain ⟨hc, hcapp, hdet⟩ := hs.full_solved _ _ _ _ t _ c he.params (isisOf_lt d e t h he) hsys he.t_pos hwf hcons hsv
     have : c = e.c := determined_unique_d _ (mkSys_hdpcBytes _ _ _ _ hr.hH) hdet t c e.c hc he.c_wf
       (by rw [hcapp, happ])
     subst this
@@ -526,9 +550,9 @@ theorem attempt_iff (sv : Solver) (hs : SolverSpec sv) (d : BlockDec) (e : Block
       rw [h.ht]
       cases hsv : sv.noHdpc e.sp (isisOf d e.sp) (List.replicate e.sp.s (zeroSym t) ++ recvOf d e.sp) with
       | singular => exact ⟨res, cs, h3, h3a, h3b⟩
-      | oracleError => exact absurd hsv (hs.bin_answers _ _ _ t _ hbsys he.t_pos hwf hcons)
+      | oracleError => exact absurd hsv (hs.bin_answers _ _ _ _ t _ he.params (isisOf_lt d e t h he) hbsys he.t_pos hwf hcons)
       | solved c =>
-        obtain ⟨hc, hcapp, hdet⟩ := hs.bin_solved _ _ _ t _ c hbsys he.t_pos hwf hcons hsv
+        obtain ⟨hc, hcapp, hdet⟩ := hs.bin_solved _ _ _ _ t _ c he.params (isisOf_lt d e t h he) hbsys he.t_pos hwf hcons hsv
         have : c = e.c := determined_unique_d _ (mkSys_hdpcBytes_nil _ _ _) hdet t c e.c hc he.c_wf
           (by rw [hcapp, hbapp])
         subst this
